@@ -5,6 +5,9 @@ import Proofs.DasTotal
 import Proofs.DasIds
 import Proofs.DasCanon
 import Proofs.DasSrc
+import Proofs.DasNumber
+import Proofs.DasSplit
+import Proofs.DasExpect
 /-!
   C08 — attributes survive the DAS.  Model: `PydapModel/DasText.lean` (follows parsers/das.py and
   responses/das.py *after* the three fixes: `float()` under Float32/Float64; size-0 values skipped everywhere;
@@ -23,7 +26,14 @@ import Proofs.DasSrc
       `C08_memo_second_opening`, `C08_memo_refuted`, and the client over histories of openings: `C08_history_roundtrip`;
     * value / attribute-line level and the single decisions of `add_attributes` (`C08_value_roundtrip`,
       `C08_roundtrip_line_*`, `C08_foreign_line`, `C08_placement_flat/_nested/_both/_keep/_none/_global`).
-  Not ∀-theorems (see design_notes/C08.md for the precise reasons): whole-tree texts mixing flat and nested containers
+    * round 7 (theorem audit, table at the top of design_notes/C08.md): `C08_number_tokens` (every token of the grammar
+      `'%.6g'` prints is classified back to its Python type: the `convert` hypothesis inside `ScalarOk` is discharged for
+      the grammar), `C08_domain` / `C08_roundtrip_domain` (the property's quantifier written syntactically), `C08_id_split`
+      (the id path is `var.id.split(".")`), `C08_expected_var` / `C08_expected_global` (the outcome read as lookups).
+      True by construction of the model, hence carried by the correspondence only: `C08_history_roundtrip`,
+      `C08_attach_total`, `C08_memo_*`.
+  Not ∀-theorems (see design_notes/C08.md for the precise reasons): nested foreign texts in general position
+  (`C08_foreign` needs the text to denote exactly `dsDict ds`), whole-tree texts mixing flat and nested containers
   for one subtree (the single visit is `C08_placement_both`), white space before `,`/`;` after a number token (its value
   is Python's `literal_eval`), parser error outcomes.
 -/
@@ -524,6 +534,117 @@ set_option maxRecDepth 200000 in
 example : (roundTrip ⟨"d".toList, [], [Var.mk .struct "s".toList [("t".toList, .sc (.num "7".toList false))]
       [Var.mk .base "t".toList [] []]]⟩)
     = some (.ok ⟨[], [(["s".toList, "t".toList], []), (["s".toList], [])]⟩) := rfl
+
+/-! ### round 7 (theorem audit): the domain stated syntactically, the id as `split(".")` -/
+
+/-- **number tokens are classified back to their Python type — for every token of the printed grammar.**  `ScalarOk` of a
+    number contains the hypothesis `convert ty tok = ok (num tok f)`; up to round 6 it was discharged on samples only.
+    Here: every int token (optional `-`, decimal digits without a superfluous leading zero — any number of digits, so the
+    property's "up to 6" is inside) under a declared type that is neither a string nor a float type comes back as the
+    same token with Python type int; every float token `'%.6g'` can print (`1`, `-0`, `2.5`, `0.0001`, `1e+06`,
+    `-1.23457e-07`, `nan`, `inf`, `-inf`) under Float32/Float64 comes back as the same token with type float.  The
+    grammar (`IntShape`, `FloatShape`: existential decompositions) is independent of the classifier `literalEval`. -/
+theorem C08_number_tokens (ty t : Text) (hs : strTypes.contains (lower ty) = false) :
+    (IntShape t → floatTypes.contains (lower ty) = false → ScalarOk ty (.num t false)) ∧
+    (FloatShape t → floatTypes.contains (lower ty) = true → ScalarOk ty (.num t true)) :=
+  ⟨fun h hf => scalarOk_int ty t hs hf h, fun h hf => scalarOk_float ty t hs hf h⟩
+
+/-- **the property's quantifier, syntactically, is inside the theorems' domain**: attribute maps made of strings without
+    `"` and `\`, int tokens, `%.6g` float tokens (NaN, ±inf), homogeneous lists (all strings / all floats / all ints, any
+    length) and nested dicts, on any tree of Structures, Sequences, Grids and Base variables, satisfy `DsOk`. -/
+theorem C08_domain (ds : Dataset) (h : DsDom ds) : DsOk ds := dsDom_ok ds h
+
+/-- **whole-dataset round trip over the syntactic domain** (replaces the reading "`DsOk` = the DAS-safe domain" by a
+    theorem): no hypothesis mentions the parser any more.  Guards as in `C08_roundtrip_partial` / `_canon`. -/
+theorem C08_roundtrip_domain (ds : Dataset) (hd : DsDom ds) :
+    (Guard ds → roundTrip ds = some (.ok (expected ds))) ∧
+    (Guard (canonDs ds) → roundTrip ds = some (.ok (expected (canonDs ds)))) :=
+  ⟨C08_roundtrip_partial ds (dsDom_ok ds hd), C08_roundtrip_canon ds (dsDom_ok ds hd)⟩
+
+/-- **the id path is `var.id.split(".")`**: the model's `attachStep` is given the path of names and uses `dotted p`
+    (= `var.id`) as the flat key; for dot-free names (`_quote` turns `.` into `%2E`) splitting the id gives the path
+    back, so `p.dropLast` / `p.getLast?` are the code's `id.split(".")[:-1]` / `[-1]`. -/
+theorem C08_id_split (p : List Text) (hne : p ≠ []) (hp : ∀ n ∈ p, '.' ∉ n) : splitDot (dotted p) = p :=
+  splitDot_dotted p hne hp
+
+-- non-vacuity: shapes have inhabitants (the tokens `%.6g` prints for -5, 100000, 1.0, 2.5, 1e-07, 1234567.0)
+example : IntShape "-5".toList := ⟨['-'], ['5'], rfl, Or.inr rfl, '5', [], rfl, by decide, by simp [DigitRun], by decide⟩
+example : IntShape "100000".toList :=
+  ⟨[], "100000".toList, rfl, Or.inl rfl, '1', "00000".toList, rfl, by decide, by unfold DigitRun; decide, by decide⟩
+example : FloatShape "1".toList :=
+  Or.inl ⟨[], ['1'], [], [], rfl, Or.inl rfl, ⟨'1', [], rfl, by decide, by simp [DigitRun], by decide⟩, Or.inl rfl, Or.inl rfl⟩
+example : FloatShape "-2.5".toList :=
+  Or.inl ⟨['-'], ['2'], ['.', '5'], [], rfl, Or.inr rfl, ⟨'2', [], rfl, by decide, by simp [DigitRun], by decide⟩,
+    Or.inr ⟨'5', [], rfl, by decide, by simp [DigitRun]⟩, Or.inl rfl⟩
+example : FloatShape "1.23457e+06".toList :=
+  Or.inl ⟨[], ['1'], ".23457".toList, "e+06".toList, rfl, Or.inl rfl, ⟨'1', [], rfl, by decide, by simp [DigitRun], by decide⟩,
+    Or.inr ⟨'2', "3457".toList, rfl, by decide, by unfold DigitRun; decide⟩,
+    Or.inr ⟨'+', '0', ['6'], rfl, Or.inl rfl, by decide, by unfold DigitRun; decide⟩⟩
+example : FloatShape "nan".toList ∧ FloatShape "-inf".toList := ⟨Or.inr (Or.inl rfl), Or.inr (Or.inr (Or.inr rfl))⟩
+-- the grammar is not the classifier: `007` and `1.` are classified (bad / float) but are no shapes `%.6g` prints; and a
+-- shape is what the theorem needs, e.g. under Int16 and FLOAT32
+example : ScalarOk "Int16".toList (.num "-5".toList false) :=
+  (C08_number_tokens _ _ rfl).1 ⟨['-'], ['5'], rfl, Or.inr rfl, '5', [], rfl, by decide, by simp [DigitRun], by decide⟩ rfl
+-- the syntactic domain: the dataset of the whole-text example is in it
+example : DsDom exSmall := by
+  refine ⟨⟨nameOk_title, by unfold ValDom ScalarDom SafeStr; decide, trivial⟩, ?_, trivial⟩
+  show NameOk "s".toList ∧ AttrsDom [("u".toList, .sc (.num "1".toList true))] ∧ VarsDom [_]
+  refine ⟨nameOk_s, ⟨nameOk_u, ?_, trivial⟩, ⟨nameOk_a, nameOk_l, ?_, trivial⟩, trivial⟩
+  · exact Or.inl ⟨[], ['1'], [], [], rfl, Or.inl rfl, ⟨'1', [], rfl, by decide, by simp [DigitRun], by decide⟩, Or.inl rfl, Or.inl rfl⟩
+  · refine ⟨?_, Or.inr (Or.inr (by decide))⟩
+    intro x hx
+    simp at hx
+    rcases hx with rfl | rfl
+    · exact ⟨[], ['1'], rfl, Or.inl rfl, '1', [], rfl, by decide, by simp [DigitRun], by decide⟩
+    · exact ⟨[], ['2'], rfl, Or.inl rfl, '2', [], rfl, by decide, by simp [DigitRun], by decide⟩
+example : splitDot "s.t.b".toList = ["s".toList, "t".toList, "b".toList] := by decide
+example : splitDot (dotted ["s".toList, "a".toList]) = ["s".toList, "a".toList] :=
+  C08_id_split _ (by simp) (by decide)
+
+/-! ### round 7: what `expected ds` says, as lookups (the property's "found on the same variables", "become global") -/
+
+/-- **same variables**: in the outcome of the round-trip theorems every variable of a node is listed under its own name
+    with exactly its own attribute map (key order), what is listed below a Structure / Sequence is listed under the
+    parent's name (so, by induction, every variable at any depth under its id path), and the members of a Grid hold
+    nothing.  (`expectVars` used to be readable only as a definition.) -/
+theorem C08_expected_var (cs : List Var) (v : Var) (hv : v ∈ cs) :
+    ([v.name], sortKeys v.attrs) ∈ expectVars cs
+    ∧ (v.kind = .struct ∨ v.kind = .seq → ∀ q d, (q, d) ∈ expectVars v.children → (v.name :: q, d) ∈ expectVars cs)
+    ∧ (v.kind = .grid → ∀ m ∈ v.children, ([v.name, m.name], []) ∈ expectVars cs) :=
+  ⟨expected_own cs v hv, fun hk q d h => expected_sub cs v hv hk q d h,
+   fun hk m hm => expected_member cs v m hv hk hm⟩
+
+/-- **globals, as lookups in the client's `dataset.attributes`**: a plain attribute of the dataset (anything but a
+    dict-valued NC_GLOBAL/DODS_EXTRA; a stranger container included) is found under its name with its value; an entry of a
+    dict-valued NC_GLOBAL / DODS_EXTRA is found under its own name when the name is defined only there. -/
+theorem C08_expected_global (ds : Dataset) (hnd : (keys ds.attrs).Nodup) :
+    (∀ k v, dget ds.attrs k = some v → isGlobalDict (k, v) = false → dget (expected ds).globals k = some v)
+    ∧ (∀ g e k v, g ∈ globalNames → (g, AVal.dict e) ∈ ds.attrs → (keys e).Nodup → dget e k = some v →
+        k ∉ keys ds.attrs →
+        (∀ g' e', (g', AVal.dict e') ∈ ds.attrs → g' ∈ globalNames → g' ≠ g → k ∉ keys e') →
+        dget (expected ds).globals k = some v) :=
+  ⟨fun k v h hp => expected_global_plain ds hnd k v h hp,
+   fun g e k v hg hm he hk hp ho => expected_global_merged ds hnd g e k v hg hm he hk hp ho⟩
+
+-- non-vacuity on `exDs` (global `title`, container NC_GLOBAL {n: 3}, Structure `s` with member `a`, Grid `g` with `arr`)
+example : dget (expected exDs).globals "title".toList = some (.sc (.str "t; {x}".toList)) :=
+  (C08_expected_global exDs (by decide)).1 _ _ rfl rfl
+example : dget (expected exDs).globals "n".toList = some (.sc (.num "3".toList false)) :=
+  (C08_expected_global exDs (by decide)).2 "NC_GLOBAL".toList _ "n".toList _ (by decide)
+    (List.Mem.tail _ (List.Mem.head _)) (by decide) rfl (by decide)
+    (by
+      intro g' e' hm hg hne
+      rcases List.mem_cons.mp hm with h | h
+      · cases h
+      · rcases List.mem_cons.mp h with h | h
+        · injection h with h1 _; exact absurd h1 hne
+        · cases h)
+example : (["s".toList, "a".toList], sortKeys [("l".toList, AVal.list [.num "1".toList false, .num "2".toList false]),
+      ("m".toList, .dict [("k".toList, .sc (.str [])), ("e".toList, .dict [])])]) ∈ expectVars exDs.children :=
+  (C08_expected_var exDs.children _ (List.Mem.head _)).2.1 (Or.inl rfl) _ _
+    (C08_expected_var _ _ (List.Mem.head _)).1
+example : (["g".toList, "arr".toList], []) ∈ expectVars exDs.children :=
+  (C08_expected_var exDs.children _ (List.Mem.tail _ (List.Mem.head _))).2.2 rfl _ (List.Mem.head _)
 
 /-! ### the tie by translation: the *source text* of `type_convert` / `get_type` names the model's types
 
